@@ -41,6 +41,8 @@ def configs(tier):
             out.append(dict(key=f"soft,sizes={s},cbc", sizes=list(s), dissim="abstract", backend="cbc", mode="soft",
                             cost=len(common.all_tuples(s)) ** 3))
         out.append(dict(key="soft,sizes=(2, 1, 1),glpk_import", sizes=[2, 1, 1], dissim="abstract", backend="glpk_import", mode="soft", cost=3000))
+    # units of one annotator may start together (ties on position: the container orders them by end, then label)
+    out.append(dict(key="soft,positional,sizes=(2, 1),ties-on-start-allowed", sizes=[2, 1], dissim="positional", labels="mixed", backend="cbc", mode="soft", ties=True, cost=400))
     return out
 
 
